@@ -316,6 +316,17 @@ def sticky_flag(fl, set_edges, ok_blocks):
                and R.root(t['on']) in (('m', F), ('l', F)):
                 tr, fa = bool_edges(bi, t)
                 init_edges |= fa
+        if ranges.ty_range(ty):
+            # ordering tests of the latch itself (`n > 0`, `n < 1`, ...): the zero side counts as "still initial"
+            for bi in cfg.reachable():
+                for st in b.blocks[bi]['stmts']:
+                    rv = st['rv']
+                    if rv['k'] == 'bin' and rv['op'] in ('Lt', 'Le', 'Gt', 'Ge') and not st['dst']['proj']:
+                        ra, rb_ = R.root(rv['ops'][0]), R.root(rv['ops'][1])
+                        if ra in (('m', F), ('l', F)) or rb_ in (('m', F), ('l', F)):
+                            ze, _ = zero_test_edges(fl, lambda os_: True)
+                            oc = fl.outcomes(None, st['dst']['l'])
+                            init_edges |= {e for e in ze if e in (oc.get('true', set()) | oc.get('false', set()))}
         if init_edges and ok_blocks and all(cfg.edges_guard(init_edges, ob) for ob in ok_blocks):
             return F, 'latch %s' % (b.local_name(F) or '_%d' % F)
         why = 'the success return is not guarded by a test that %s is still at its initial value' % (b.local_name(F) or '_%d' % F)
@@ -473,3 +484,85 @@ def request_value(F, body, os_, ty):
     os_ = [o for o in os_ if o.kind != 'comb']
     want = ty.replace(' ', '')
     return bool(os_) and all(o.kind == 'param' and (origin_value_type(F, body, o) or '').replace(' ', '') == want for o in os_)
+
+
+def zero_test_edges(fl, is_value):
+    """(zero_edges, nonzero_edges): the CFG edges on which an unsigned value v (operands whose origins satisfy is_value) is
+    known to be == 0 / != 0, whatever comparison and operand order the code uses (v == 0, 0 != v, v > 0, 0 < v, v < 1, ...)"""
+    zero, nonzero = set(), set()
+    b = fl.body
+
+    def cst(op):
+        os_ = [o for o in fl.origins(op) if o.kind != 'comb']
+        if os_ and all(o.kind == 'const' and isinstance(o.key, int) for o in os_) and len({o.key for o in os_}) == 1:
+            return os_[0].key
+        return None
+    for bi in fl.cfg.reachable():
+        for st in b.blocks[bi]['stmts']:
+            rv = st['rv']
+            if rv['k'] != 'bin' or rv['op'] not in ('Eq', 'Ne', 'Lt', 'Le', 'Gt', 'Ge') or st['dst']['proj']:
+                continue
+            a, c = rv['ops']
+            op = rv['op']
+            if is_value(fl.origins(a)) and cst(c) is not None:
+                k = cst(c)
+            elif is_value(fl.origins(c)) and cst(a) is not None:
+                k = cst(a)
+                op = {'Lt': 'Gt', 'Gt': 'Lt', 'Le': 'Ge', 'Ge': 'Le'}.get(op, op)      # k ? v  ->  v ?' k
+            else:
+                continue
+            # truth of (v op k) when v == 0, and whether (v op k) is constant for all v != 0
+            on_zero = {'Eq': 0 == k, 'Ne': 0 != k, 'Lt': 0 < k, 'Le': 0 <= k, 'Gt': 0 > k, 'Ge': 0 >= k}[op]
+            if k == 0 and op in ('Eq', 'Ne', 'Gt', 'Le'):
+                pass
+            elif k == 1 and op in ('Lt', 'Ge'):
+                pass
+            else:
+                continue
+            oc = fl.outcomes(None, st['dst']['l'])
+            t_e, f_e = oc.get('true', set()), oc.get('false', set())
+            if on_zero:
+                zero |= t_e
+                nonzero |= f_e
+            else:
+                zero |= f_e
+                nonzero |= t_e
+    return zero, nonzero
+
+
+def counted_event(fl, event_edges, ok_blocks):
+    """Origin-based form of the latch rule (works through struct fields, destructuring and renames): every path after an
+    edge in `event_edges` performs a checked/plain `+ c` (c > 0) whose result is what some later `== 0`-style test examines,
+    and every block in `ok_blocks` is reachable only on the zero side of such a test.  Returns (ok, why)."""
+    b, cfg = fl.body, fl.cfg
+    heads = set(cfg.loops().keys())
+    exits = set(cfg.exits())
+    # increments located behind the event
+    marks = set()
+    for bi in cfg.reachable():
+        if not cfg.edges_guard(event_edges, bi):
+            continue
+        for st in b.blocks[bi]['stmts']:
+            rv = st['rv']
+            if rv['k'] == 'bin' and rv['op'] in ('AddWithOverflow', 'Add') and rv['ops'][1]['k'] == 'const' and (rv['ops'][1].get('v') or 0) > 0:
+                marks.add(bi)
+    if not marks:
+        return False, 'nothing is counted on the path after the event'
+    for (s_, t_, lab) in event_edges:
+        r = cfg.reach(t_, cut_blocks=marks)
+        if t_ not in marks and (r & (heads | exits)):
+            return False, 'the event can pass without being counted'
+
+    def is_value(os_):
+        os_ = [o for o in os_ if o.kind != 'comb']
+        if not any(o.kind == 'op' and o.bb in marks for o in os_):
+            return False
+        # everything else that can flow into the tested value is an initial zero / default or another count of the same kind
+        return all((o.kind == 'op' and 'Add' in str(o.key)) or (o.kind == 'const' and isinstance(o.key, (int, bool))) or
+                   (o.kind == 'call' and str(o.key).endswith('Default::default')) or (o.kind == 'agg') for o in os_)
+    z_e, nz_e = zero_test_edges(fl, is_value)
+    if not z_e:
+        return False, 'no test of the count against zero'
+    if not all(cfg.edges_guard(z_e, ob) for ob in ok_blocks):
+        return False, 'a success return is reachable without the count having been found zero'
+    return True, 'count behind the event, tested against zero before every success return'
